@@ -54,7 +54,14 @@ func (cb *cbox) afterSvcHandler(name string, svc *v1.Service, pre *boxPre, res c
 	}
 	cb.stepMonitors(snap)
 	if has && (!pre.had || !vfSameSet(pre.snap.Allocated[name].IPs, post.IPs)) {
-		cb.memLog = append(cb.memLog, boxWrite{Key: name, IPs: post.IPs, Versions: len(cb.delivered)})
+		phase := "after-first-full-sync"
+		if cb.fullSyncs == 0 {
+			phase = "single-service-event-before-first-full-sync"
+			if cb.k.Current("svc") == boxReloadReq {
+				phase = "during-first-full-sync"
+			}
+		}
+		cb.memLog = append(cb.memLog, boxWrite{Key: name, IPs: post.IPs, Versions: len(cb.delivered), Phase: phase})
 	}
 	if cb.mon.c02 && svc != nil && cb.cur != nil && has {
 		cb.allocationEvent(name, svc, pre, snap)
